@@ -95,6 +95,12 @@ class Check:
                     k[m.group(2)] = m.group(3)
         return k
 
+    def phase(self, name):
+        """timing mark, printed and kept in evidence"""
+        now = time.time()
+        self.cov.setdefault("phases_s", {})[name] = round(now - self.t0, 1)
+        print("[%s] +%.1fs %s" % (self.pid, now - self.t0, name), flush=True)
+
     def log(self, *a):
         msg = " ".join(str(x) for x in a)
         self.logs.append(msg)
